@@ -19,11 +19,12 @@
 #include <INTEGER.h>
 #include <REAL.h>
 #include <OBJECT_IDENTIFIER.h>
+#include <RELATIVE-OID.h>
 #include <GeneralizedTime.h>
 #include <UTCTime.h>
 
 static FILE *out;
-static long sid;
+static long sid; static int stepno;
 static void put_hex(const uint8_t *b, size_t n) { size_t i; fputc('"', out); for(i = 0; i < n; i++) fprintf(out, "%02x", b[i]); fputc('"', out); }
 static int hexval(int c) { return isdigit(c) ? c - '0' : (tolower(c) - 'a' + 10); }
 static uint8_t *parse_hex(const char *h, size_t *n) {
@@ -32,7 +33,7 @@ static uint8_t *parse_hex(const char *h, size_t *n) {
     b[len] = 0; *n = len; return b;
 }
 static void on_fatal(int sig) {
-    char b[128]; int n = snprintf(b, sizeof b, "{\"id\":%ld,\"a\":\"%s\",\"sig\":%d}\n", sid, sig == SIGALRM ? "Timeout" : "Crash", sig);
+    char b[128]; int n = snprintf(b, sizeof b, "{\"id\":%ld,\"i\":%d,\"a\":\"%s\",\"sig\":%d}\n", sid, stepno, sig == SIGALRM ? "Timeout" : "Crash", sig);
     fflush(out); if(write(fileno(out), b, n) < 0) {} _exit(70);
 }
 static const char *strtox_name(enum asn_strtox_result_e r) {
@@ -52,6 +53,44 @@ int main(int argc, char **argv) {
         op = strtok_r(line, " ", &save); ids = strtok_r(NULL, " ", &save);
         if(!op || !ids) continue;
         sid = atol(ids);
+        if(!strcmp(op, "oidapi")) {
+            /* a script of calls on ONE object: oidapi <id> <oid|roid> set:1.2.3 load:2b06 get:3 ...  ('-' = empty) */
+            char *kind = strtok_r(NULL, " ", &save), *tok; int roid = kind && !strcmp(kind, "roid"), step = 0;
+            OBJECT_IDENTIFIER_t st; memset(&st, 0, sizeof st);
+            fprintf(out, "{\"id\":%ld,\"a\":\"Begin\"}\n", sid); fflush(out);
+            while((tok = strtok_r(NULL, " ", &save))) {
+                char *arg = strchr(tok, ':'); asn_oid_arc_t arcs[64], backa[70]; size_t na = 0, i; long ret = 0; int e = 0, canary = 1; long slots = -1;
+                if(!arg) break;
+                *arg++ = 0; step++; stepno = step;
+                alarm(10);
+                errno = 0;
+                if(!strcmp(tok, "set")) {
+                    char *s;
+                    if(strcmp(arg, "-")) for(s = arg; *s && na < 64; ) { arcs[na++] = (asn_oid_arc_t)strtoumax(s, &s, 10); if(*s == '.') s++; }
+                    ret = roid ? RELATIVE_OID_set_arcs((RELATIVE_OID_t *)&st, arcs, na) : OBJECT_IDENTIFIER_set_arcs(&st, arcs, na);
+                    e = errno;
+                } else if(!strcmp(tok, "load")) {
+                    size_t n = 0; uint8_t *b = parse_hex(strcmp(arg, "-") ? arg : "", &n);
+                    free(st.buf); st.buf = b; st.size = n;
+                } else if(!strcmp(tok, "get")) {
+                    slots = atol(arg);
+                    memset(backa, 0xa5, sizeof backa);
+                    ret = roid ? RELATIVE_OID_get_arcs((RELATIVE_OID_t *)&st, backa, (size_t)slots) : OBJECT_IDENTIFIER_get_arcs(&st, backa, (size_t)slots);
+                    e = errno;
+                    { unsigned char *p = (unsigned char *)&backa[slots < 64 ? slots : 64]; size_t k; for(k = 0; k < sizeof(asn_oid_arc_t) * 4; k++) if(p[k] != 0xa5) canary = 0; }
+                }
+                fprintf(out, "{\"id\":%ld,\"i\":%d,\"a\":\"Call\",\"sop\":\"%s\",\"ret\":%ld,\"errno\":%d,\"isset\":%s,\"octets\":", sid, step, tok, ret, ret < 0 ? e : 0, st.buf ? "true" : "false");
+                put_hex(st.buf, st.buf ? st.size : 0);
+                fputs(",\"back\":[", out);
+                for(i = 0; slots >= 0 && ret > 0 && i < (size_t)ret && i < (size_t)slots && i < 64; i++) fprintf(out, "%s\"%" PRIuMAX "\"", i ? "," : "", (uintmax_t)backa[i]);
+                fprintf(out, "],\"canary\":%s}\n", canary ? "true" : "false"); fflush(out);
+                alarm(0);
+            }
+            free(st.buf);
+            fprintf(out, "{\"id\":%ld,\"a\":\"End\"}\n", sid); fflush(out);
+            stepno = 0;
+            continue;
+        }
         alarm(10);
         fprintf(out, "{\"id\":%ld,\"a\":\"Call\",\"op\":\"%s\"", sid, op);
         if(!strcmp(op, "int2c")) {
